@@ -25,6 +25,11 @@ def shapes(pal=0):
         "phased": dict(name="phased", phases=dict(PH2), comps=[S("S1"), mk("C1", "CVc", ["S1"]), dict(mk("L1", "PLx", ["C1"]), pc={"a": 0.05, "b": 0.4}),
                                                                  dict(mk("P1", "PSc", ["S1"]), pc=["a"]), mk("L2", "ILx", ["P1"])]),
     }
+    # a phase in which NOTHING dissipates (ideal source, loads defined for phase a only, no sleep currents): it still counts with its duration
+    out["idle"] = dict(name="idle", phases=dict(PH2), comps=[
+        dict(n="S1", k="Source", a=dict(vo=5.0, rs=0.0), p=[], g="", r=""), mk("R1", "RL", ["S1"]),
+        dict(n="L1", k="ILoad", a=dict(ii=0.04, iis=0.0, loss=True), p=["R1"], g="", r="", pc={"a": 0.05}),
+        dict(n="L2", k="PLoad", a=dict(pwr=0.3, pwrs=0.0, loss=True), p=["S1"], g="", r="", pc={"a": 0.02})])
     m = mux_spec([("S", "live"), ("SC", "live")], pal, False, below="std")
     m["phases"] = None
     for c in m["comps"]:
